@@ -20,8 +20,8 @@ func (r *Rng) Intn(n int) int {
 	}
 	return int(r.U64() % uint64(n))
 }
-func (r *Rng) Bool() bool          { return r.U64()&1 == 1 }
-func (r *Rng) Chance(p float64) bool { return float64(r.U64()>>11)/float64(1<<53) < p }
+func (r *Rng) Bool() bool              { return r.U64()&1 == 1 }
+func (r *Rng) Chance(p float64) bool   { return float64(r.U64()>>11)/float64(1<<53) < p }
 func (r *Rng) Pick(xs []string) string { return xs[r.Intn(len(xs))] }
 func (r *Rng) Fork(stream string) *Rng { return &Rng{s: r.U64() ^ hash64(stream)} }
 func (r *Rng) Shuffle(n int, swap func(i, j int)) {
